@@ -75,7 +75,7 @@ var (
 func encodeString(value string) []byte {
 
 	if value == "" {
-		return []byte{_nilTag}
+		return []byte{_stringShortLenMin}
 	}
 
 	dataBys := []rune(value)
